@@ -172,6 +172,86 @@ def measure_y_frame(repo) -> List[Dict[str, Any]]:
     return out
 
 
+def reset_frame(repo) -> List[Dict[str, Any]]:
+    """Repeatability rests on `layout` forgetting the scratch state of earlier layouts of the same nodes:
+    (1) layout() resets before it measures; (2) _reset leaves only for a missing node, and otherwise -
+    unconditionally - drops every scratch attribute and recurses into BOTH children (structural
+    induction: after _reset(n) no node below n carries scratch state); (3) the scratch attributes that
+    `measure` stores on nodes are all among the ones dropped.  Structural scan of the current source."""
+    src = open(os.path.join(repo, "mathy_core", "layout.py")).read()
+    tree = ast.parse(src)
+    out = []
+    cls = next((n for n in tree.body if isinstance(n, ast.ClassDef) and n.name == "TreeLayout"), None)
+    meth = {n.name: n for n in cls.body if isinstance(n, ast.FunctionDef)} if cls else {}
+
+    def body_of(fn):
+        return [st for st in fn.body if not (isinstance(st, ast.Expr) and isinstance(st.value, ast.Constant))]
+
+    def self_call(st, name):
+        v = st.value if isinstance(st, ast.Expr) else None
+        return isinstance(v, ast.Call) and isinstance(v.func, ast.Attribute) and isinstance(v.func.value, ast.Name) and v.func.value.id == "self" and v.func.attr == name
+
+    lay, rst, mea = meth.get("layout"), meth.get("_reset"), meth.get("measure")
+    if lay is None or mea is None:
+        return [{"clause": "TreeLayout/reset/found", "ok": False, "detail": "layout / measure not found"}]
+    if rst is None:
+        return [{"clause": "TreeLayout.layout/forgets-earlier-scratch-state", "ok": False, "detail": "no _reset: threads and offsets of an earlier layout are followed again"}]
+    lb = body_of(lay)
+    i_r = next((i for i, st in enumerate(lb) if self_call(st, "_reset")), None)
+    i_m = next((i for i, st in enumerate(lb) if self_call(st, "measure")), None)
+    ok = i_r is not None and i_m is not None and i_r < i_m and isinstance(lb[i_r].value.args[0], ast.Name) and lb[i_r].value.args[0].id == lay.args.args[1].arg
+    out.append({"clause": "TreeLayout.layout/resets-the-tree-before-measuring", "ok": bool(ok), "detail": "" if ok else "no unconditional self._reset(node) before self.measure(node)"})
+    rb = body_of(rst)
+    pname = rst.args.args[1].arg
+    problems = []
+    dropped = set()
+    rec = []
+    for st in rb:
+        if isinstance(st, ast.If):
+            t = st.test
+            none_test = (isinstance(t, ast.Compare) and isinstance(t.left, ast.Name) and t.left.id == pname and len(t.ops) == 1 and isinstance(t.ops[0], ast.Is)
+                         and isinstance(t.comparators[0], ast.Constant) and t.comparators[0].value is None) or (isinstance(t, ast.UnaryOp) and isinstance(t.op, ast.Not) and isinstance(t.operand, ast.Name) and t.operand.id == pname)
+            only_return = len(st.body) == 1 and isinstance(st.body[0], ast.Return) and not st.orelse
+            if not (none_test and only_return):
+                problems.append(f"line {st.lineno}: a conditional other than the missing-node guard")
+            continue
+        if isinstance(st, ast.For) and isinstance(st.iter, (ast.Tuple, ast.List)) and all(isinstance(e, ast.Constant) for e in st.iter.elts):
+            names = {e.value for e in st.iter.elts}
+            uses = [n for n in ast.walk(ast.Module(body=st.body, type_ignores=[])) if isinstance(n, ast.Call) and isinstance(n.func, ast.Attribute) and n.func.attr == "pop"]
+            plain = len(st.body) == 1 and isinstance(st.body[0], ast.Expr) and len(uses) == 1 and isinstance(uses[0].args[0], ast.Name) and uses[0].args[0].id == st.target.id
+            if plain:
+                dropped |= names
+            else:
+                problems.append(f"line {st.lineno}: loop body is not a plain pop of the attribute")
+            continue
+        if self_call(st, "_reset"):
+            a = st.value.args[0]
+            if isinstance(a, ast.Attribute) and isinstance(a.value, ast.Name) and a.value.id == pname:
+                rec.append(a.attr)
+            continue
+        if isinstance(st, ast.Delete) or (isinstance(st, ast.Expr) and isinstance(st.value, ast.Call)):
+            for n in ast.walk(st):
+                if isinstance(n, ast.Constant) and isinstance(n.value, str):
+                    dropped.add(n.value)
+                if isinstance(n, ast.Attribute) and isinstance(n.value, ast.Name) and n.value.id == pname and isinstance(st, ast.Delete):
+                    dropped.add(n.attr)
+            continue
+        if isinstance(st, (ast.Return, ast.Continue, ast.Break)):
+            problems.append(f"line {st.lineno}: leaves before the children are reset")
+            continue
+    out.append({"clause": "TreeLayout._reset/unconditional-below-the-missing-node-guard", "ok": not problems, "detail": "; ".join(problems[:3])})
+    out.append({"clause": "TreeLayout._reset/recurses-into-both-children", "ok": sorted(rec) == ["left", "right"], "detail": "" if sorted(rec) == ["left", "right"] else f"recursive calls on {rec}"})
+    scratch = set()
+    for n in ast.walk(mea):
+        tg = n.targets if isinstance(n, ast.Assign) else [n.target] if isinstance(n, (ast.AugAssign, ast.AnnAssign)) else []
+        for t in tg:
+            if isinstance(t, ast.Attribute) and t.attr not in ("x", "y") and not (isinstance(t.value, ast.Name) and t.value.id in ("self", "extremes", "left_extremes", "right_extremes")):
+                scratch.add(t.attr)
+    missing = sorted(scratch - dropped)
+    out.append({"clause": "TreeLayout._reset/drops-every-scratch-attribute-measure-stores-on-nodes", "ok": not missing, "detail": "" if not missing else f"not dropped: {missing} (dropped {sorted(dropped)})"})
+    return out
+
+
 class _Out:
     def __init__(self, result, error):
         self.result, self.error = result, error
@@ -240,6 +320,14 @@ def run(tier: str, seed: int) -> int:
             n_ok += 1
         else:
             R.violation(f"obligation C18/{ob['clause']} failed: {ob['detail']}", {"obligation": ob}, False)
+    for ob in reset_frame(REPO):
+        n_obl += 1
+        if ob["ok"]:
+            n_ok += 1
+        else:
+            # the scan recognises one way of writing the reset; another way may be just as right: undecided here,
+            # the histories of the bounded run (partial layouts first) give the violation with a failing shape
+            R.undecided.append(f"{ob['clause']}: {ob['detail']}")
     if n_obl == 0:
         R.engine_errors.append("no obligations generated")
     # bounded stand-in
@@ -271,7 +359,7 @@ def run(tier: str, seed: int) -> int:
         "obligations": n_obl,
         "discharged": n_ok,
         "checker_cmd": f"/verif/bin/check C18 --tier {tier}",
-        "trusted_base": ["pyvc symbolic executor", "reals for floats", "syntactic frame check for measure's writes to .y"],
+        "trusted_base": ["pyvc symbolic executor", "reals for floats", "syntactic frame check for measure's writes to .y", "structural scan of layout()/_reset (reset before measure, unconditional, both children, covers measure's scratch attributes)"],
         "functions_under_contract": ["TreeLayout.transform (proved)", "TreeLayout.measure (y clause only, syntactic)", "TreeLayout.layout (entry arguments)"],
         "samples": samples,
         "bounded": bounded,
